@@ -571,6 +571,16 @@ func (k *Kernel) addProposedHeader(ctx context.Context, s *kState, ph tmconsensu
 		// TODO: this merging code should probably move to a function in gcrypto.
 		commitProofs := ph.Header.PrevCommitProof.Proofs
 		mergedAny := false
+
+		// Every proof we change needs its version bumped:
+		// a precommit handler that took its snapshot before this merge
+		// must get a conflict and retry, not overwrite what we merged.
+		bumpVersion := func(blockHash string) {
+			if backfillVRV.PrecommitBlockVersions == nil {
+				backfillVRV.PrecommitBlockVersions = make(map[string]uint32)
+			}
+			backfillVRV.PrecommitBlockVersions[blockHash]++
+		}
 		for blockHash, laterSigs := range commitProofs {
 			laterSparseCommit := gcrypto.SparseSignatureProof{
 				PubKeyHash: ph.Header.PrevCommitProof.PubKeyHash,
@@ -614,12 +624,16 @@ func (k *Kernel) addProposedHeader(ctx context.Context, s *kState, ph tmconsensu
 					backfillVRV.PrecommitProofs = make(map[string]gcrypto.CommonMessageSignatureProof)
 				}
 				backfillVRV.PrecommitProofs[blockHash] = target
+				bumpVersion(blockHash)
 				mergedAny = true
 				continue
 			}
 
 			mergeRes := target.MergeSparse(laterSparseCommit)
-			mergedAny = mergedAny || mergeRes.IncreasedSignatures
+			if mergeRes.IncreasedSignatures {
+				bumpVersion(blockHash)
+				mergedAny = true
+			}
 		}
 
 		if mergedAny {
